@@ -144,8 +144,8 @@ fn run(fields: &[String]) -> Result<Vec<String>, String> {
             let rule = inflection(&arg(2)?).ok_or("unknown rule")?;
             let id = arg(3)?;
             Ok(vec![match arg(1)?.as_str() {
-                "field" => rule.apply(&id),
-                "variant" => rule.apply(&id),
+                "field" => rule.apply_to_field(&id),
+                "variant" => rule.apply_to_variant(&id),
                 _ => return Err("unknown position".to_owned()),
             }])
         }
